@@ -221,6 +221,43 @@ def batch_validation(ctx):
     ctx.note_batch("argument-validation-vs-numpy", cases, dis, exhaustive=False, **stats)
 
 
+def batch_slices(ctx):
+    """every 1-d slice: the NormalizedSlice pytato stores and the axis length it infers vs the Lean model
+    (`ptNormSlice`, proved equal to CPython's slice adjustment in PtProofs/SliceLemmas) and vs NumPy"""
+    import pytato as pt
+    top = 8 if ctx.thorough else 6
+    vals = [None, *range(-top - 2, top + 3)]
+    steps = [None, 1, -1, 2, -2, 3, -3, 5, -5]
+    cases, queries = [], []
+    for n in range(0, top + 1):
+        x = pt.make_placeholder("x", (n,), np.float64)
+        a = np.zeros(n)
+        for st in vals:
+            for sp in vals:
+                for step in steps:
+                    node = x[slice(st, sp, step)]
+                    idx = node.indices[0]
+                    cases.append((n, st, sp, step, tuple(int(d) for d in node.shape), (idx.start, idx.stop, idx.step),
+                                  a[slice(st, sp, step)].shape))
+                    tok = lambda v: "None" if v is None else str(v)   # noqa: E731
+                    queries.append(f"(normslice {tok(st)} {tok(sp)} {1 if step is None else step} {n})")
+    ans = common.driver_query_parallel(queries)
+    dis = 0
+    for (n, st, sp, step, shape, norm, npshape), a in zip(cases, ans):
+        parts = a.split()
+        if shape != npshape:
+            dis += 1
+            ctx.violation("shape:slice:inferred-vs-numpy",
+                          f"x[{st}:{sp}:{step}] on an axis of length {n}: pytato infers {shape}, NumPy gives {npshape}",
+                          {"n": n, "slice": (st, sp, step), "pytato": shape, "numpy": npshape, "normalized": norm})
+        elif parts[0] != "ok" or tuple(int(v) for v in parts[1:4]) != tuple(int(v) for v in norm) \
+                or (int(parts[4]),) != shape:
+            dis += 1
+            ctx.broken.append(f"correspondence:normslice:n={n}:slice={st}:{sp}:{step}:real={norm}:model={a}")
+    ctx.note_batch("slice-shapes(model+numpy)", len(cases), dis, exhaustive=True,
+                   scope=f"n 0..{top}, start/stop None or -{top + 2}..{top + 2}, step None,±1,±2,±3,±5")
+
+
 def batch_intermediates(ctx):
     n = 1200 if ctx.thorough else 200
     nprng = np.random.default_rng(ctx.seed + 33)
@@ -259,6 +296,7 @@ def run(ctx: common.Ctx):
     ctx.lean_obligations("PtProofs.SliceLemmas", THEOREMS_SLICE)
     batch_broadcast(ctx)
     batch_validation(ctx)
+    batch_slices(ctx)
     batch_intermediates(ctx)
     ctx.broken = sorted(set(ctx.broken))[:50]
 
